@@ -9,6 +9,9 @@ from sa.rules import parserrules as P, units
 
 def check(ix, rep):
     from sa.rules import round11 as _r11
+    rep.floor('interpreter limits on the parse path', _r11.check_parse_limits(ix, rep), 2)
+    rep.floor('setters of the default unit', _r11.check_default_unit_domain(ix, rep), 1)
+    rep.floor('lower-bound guards', _r11.check_nonnegative_bound(ix, rep), 1)
     rep.floor('integer literal conversions with a base', _r11.check_literal_bases(ix, rep), 2)
     rep.floor('setters of the specification text', _r11.check_text_setters(ix, rep), 1)
     grammars = G.load(ix.repo)
